@@ -14,7 +14,8 @@ import walker_lib as wl
 THEOREMS = ['C17_reference_walk', 'C17_exactly_once', 'C17_parent_first', 'C17_no_descent', 'C17_no_descent_ancestors', 'C17_no_descent_unique',
             'C17_step_decreases', 'C17_terminates', 'C17_no_stuck', 'C17_end_of_stream', 'C17_some_run_finishes',
             'C17_error_surfaces', 'C17_no_spurious_error', 'C17_counter_invariant', 'C17_no_panic',
-            'C17_admits_spec', 'C17_model_listing_admitted', 'C17_model_failed_listing_admitted']
+            'C17_admits_spec', 'C17_model_listing_admitted', 'C17_model_failed_listing_admitted',
+            'C17_walk_lists_the_visible_entries', 'C17_delivers_a_valid_listing', 'C17_every_run_ends_with_a_valid_listing']
 
 THREADS = [1, 2, 4, 16]
 WATCHDOG_S = 60
